@@ -75,8 +75,13 @@ def r1_chain(ctx: Ctx) -> None:
             f = astq.callee(c)
             if f in ("cls", "nodes.Or", "nodes.And", "nodes.Pow") and len(c.args) >= 2:
                 order = [ast.unparse(a) for a in c.args[:2]]
-                # the second operand is the local `right` or, inlined, the operand parser's call
-                ctx.check(order[0] == "left" and (order[1] == "right" or (order[1].startswith("self.parse_") and order[1].endswith("()"))), f"{level}:order:{f}", f"parser:Parser.{level}", f"{f} operand order",
+                # the first operand is the accumulator (the variable the result is assigned back
+                # to, i.e. what was parsed first); the second is the operand parsed after the
+                # operator - a local or, inlined, the operand parser's call
+                par_ = getattr(c, "_parent", None)
+                acc = ast.unparse(par_.targets[0]) if isinstance(par_, ast.Assign) and len(par_.targets) == 1 else "left"
+                second_ok = order[1] != order[0] and (isinstance(c.args[1], ast.Name) or (order[1].startswith("self.parse_") and order[1].endswith("()")))
+                ctx.check(order[0] == acc and second_ok, f"{level}:order:{f}", f"parser:Parser.{level}", f"{f} operand order",
                           f"{f}({', '.join(order)}) swaps the operands", fi.loc(c))
     # compare operators come from the table
     pc = repo.func("parser:Parser.parse_compare")
